@@ -43,6 +43,9 @@ class Sync(pipeline.Module):
         for i in range(40 if tier == "thorough" else 10):
             lines.append(json.dumps({"pods": [rnd.choice([1, 1, 2]) for _ in range(rnd.randint(0, 4))],
                                      "ctrs": [rnd.choice([1, 1, 2, 3, 5, 7]) for _ in range(rnd.randint(0, 16))]}))
+        # few pods among many containers: the pods' share per message shrinks to 0, they are sent last, one at a time
+        for npods, nctrs in ((1, 20), (2, 24), (1, 40)):
+            lines.append(json.dumps({"pods": [1] * npods, "ctrs": [1] * nctrs}))
         # a transmissible head and an untransmissible tail: the registration is abandoned after messages were accepted
         for head, tail, npods in ((12, 5, 0), (9, 4, 3), (16, 6, 2)):
             lines.append(json.dumps({"pods": [1] * npods, "ctrs": [1] * head + [7] * tail}))
